@@ -451,6 +451,12 @@ fn primed_pairs(acc: &mut Acc) {
             .unwrap_or_else(|_| Err("thread died".into()))
         })
     };
+    // blank inputs right after a successful parse
+    for prime in ["-print", "-depth -name x", "-threads 3 -true"] {
+        for blank in ["", " ", "\t\n"] {
+            jobs.push((prime.to_string(), "-true".to_string(), blank.to_string()));
+        }
+    }
     for (prime, canon, variant) in jobs {
         acc.transitions += 2;
         acc.states += 2;
